@@ -44,6 +44,8 @@ def fix_cmp_d(pos_x, pos_d, single):
             d = near_double(rng, a[pos_x] if rng.chance(3, 4) else -a[pos_x], single)
             if d is not None and math.isfinite(d):
                 a[pos_d] = d
+        if rng.chance(1, 5) and float(a[pos_d]).is_integer():      # exact equality (or off by one) with a multi-limb double
+            a[pos_x] = int(a[pos_d]) + rng.choice([0, 0, 0, 1, -1])
         return a
     return fix
 
@@ -481,6 +483,37 @@ def fix_perfect(rng, a):
 
 
 V("isperfectpower", ["N"], o_perfect, fix=fix_perfect, oracle_only=True)
+
+
+
+def o_jacobi(a, n):     # n odd, n > 0
+    a %= n
+    r = 1
+    while a:
+        while a % 2 == 0:
+            a //= 2
+            if n % 8 in (3, 5):
+                r = -r
+        a, n = n, a
+        if a % 4 == 3 and n % 4 == 3:
+            r = -r
+        a %= n
+    return r if n == 1 else 0
+
+
+ODD_PRIMES = [3, 5, 7, 11, 13, 10007, 2**31 - 1, 2**61 - 1, 2**64 - 59, 2**89 - 1, 2**127 - 1]
+
+
+def fix_jacobi(rng, a):
+    a[1] = abs(a[1]) | 1
+    if rng.chance(1, 4):
+        a[0] = a[1] * rng.choice([0, 1, -2]) + rng.choice([0, 1, -1, 2])
+    return a
+
+
+V("jacobi", ["I", "I"], o_jacobi, fix=fix_jacobi, oracle_only=True)
+V("kronecker", ["I", "I"], o_jacobi, fix=fix_jacobi, oracle_only=True)     # on odd positive lower arguments, where it is the Jacobi symbol
+V("legendre", ["I", "I"], o_jacobi, fix=lambda rng, a: [a[0], rng.choice(ODD_PRIMES)], oracle_only=True)
 
 # the extracted model computes on Coq's binary integers: powers of multi-limb numbers are its slowest cases
 for nm in VARIANTS:
